@@ -34,21 +34,23 @@ var M = ops.Op{K: "M"}
 func alphabet(thorough bool) []ops.Op {
 	a := []ops.Op{
 		M,
-		{K: "Tx", A: 0, B: 1, T: 0, V: 5},     // plain transfer
-		{K: "Tx", A: 1, B: 13, T: 1, V: -1},   // everything to an empty account
-		{K: "Tx", A: 2, B: 0, T: 0, V: -2},    // balance+1: must be refused
-		{K: "Tx", A: 0, B: 2, T: 2, V: 3},     // custom token (zero standard if none yet)
-		{K: "R", A: 1},                        // receive oldest pending
-		{K: "Rwrong", A: 2, B: 1},             // receive by the wrong account
-		{K: "Rdup", A: 1},                     // second receive of the same send
+		{K: "Tx", A: 0, B: 1, T: 0, V: 5},      // plain transfer
+		{K: "Tx", A: 1, B: 13, T: 1, V: -1},    // everything to an empty account
+		{K: "Tx", A: 2, B: 0, T: 0, V: -2},     // balance+1: must be refused
+		{K: "Tx", A: 0, B: 2, T: 2, V: 3},      // custom token (zero standard if none yet)
+		{K: "R", A: 1},                         // receive oldest pending
+		{K: "Rwrong", A: 2, B: 1},              // receive by the wrong account
+		{K: "Rdup", A: 1},                      // second receive of the same send
+		{K: "Rpooldup", A: 1},                  // again, while the first receive is still unconfirmed
+		{K: "RdupOld", A: 1},                   // again, acknowledging a momentum below the one that confirmed the first receive
 		{K: "Call", S: "issue", A: 0, V: 1000}, // valid issue (burns the ZNN fee)
-		{K: "Mint", A: 0, B: 2, T: 2, V: 400}, // owner mints within max
+		{K: "Mint", A: 0, B: 2, T: 2, V: 400},  // owner mints within max
 		{K: "Mint", A: 0, B: 2, T: 2, V: 5000}, // over max supply
-		{K: "Mint", A: 1, B: 1, T: 0, V: 7},   // ZNN minted by a user: refused
-		{K: "Burn", A: 0, T: 0, V: 9},         // burn ZNN
-		{K: "Burn", A: 2, T: 2, V: 1},         // burn custom token by a holder
-		{K: "Call", S: "refund", A: 5},        // accepted call that fails on receive: refund
-		{K: "Call", S: "stake", A: 1, V: 10},  // successful call with an amount
+		{K: "Mint", A: 1, B: 1, T: 0, V: 7},    // ZNN minted by a user: refused
+		{K: "Burn", A: 0, T: 0, V: 9},          // burn ZNN
+		{K: "Burn", A: 2, T: 2, V: 1},          // burn custom token by a holder
+		{K: "Call", S: "refund", A: 5},         // accepted call that fails on receive: refund
+		{K: "Call", S: "stake", A: 1, V: 10},   // successful call with an amount
 	}
 	if thorough {
 		a = append(a,
